@@ -320,20 +320,40 @@ func failKind(v *Val, r *vres) string {
 // silently is marked "+nested-panic" (same root, worse manifestation in a typed slot).
 func attribute(v *Val, r *vres) (sig string, min *Val, minRes *vres) {
 	kind := failKind(v, r)
+	var first, same *Val
 	for _, k := range v.Kids {
-		kr := wbOf(k)
-		kk := failKind(k, kr)
+		kk := failKind(k, wbOf(k))
 		if kk == "" {
 			continue
 		}
-		s, m, mr := attribute(k, kr)
-		if kind == "panic" && kk != "panic" && !strings.Contains(s, "+nested-panic") {
-			s += "+nested-panic"
-			return s, v, r
+		if first == nil {
+			first = k
 		}
-		return s, m, mr
+		if kk == kind && same == nil {
+			same = k
+		}
 	}
-	return classify(v, r) + "/" + kind, v, r
+	pick := same
+	if pick == nil {
+		pick = first
+	}
+	if pick == nil {
+		return classify(v, r) + "/" + kind, v, r
+	}
+	if kind == "panic" && same == nil {
+		// no sub-value panics on its own. The panic is attributed to a silently failing sub-value only if it is
+		// the decoder refusing to store that sub-value's wrong result in a typed slot (a reflect assignability
+		// panic); any other panic belongs to this shape itself.
+		if !strings.HasPrefix(r.msg, "reflect") {
+			return classify(v, r) + "/" + kind, v, r
+		}
+		s, _, _ := attribute(pick, wbOf(pick))
+		if !strings.Contains(s, "+nested-panic") {
+			s += "+nested-panic"
+		}
+		return s, v, r
+	}
+	return attribute(pick, wbOf(pick))
 }
 
 // classify describes the class of a minimal failing value (never its concrete contents).
@@ -372,6 +392,9 @@ func classify(v *Val, r *vres) string {
 		case lvl < 0:
 			return pre + "-to-" + ctorOf(stripPtr(s))
 		case n == 1:
+			if b := stripPtr(s); ctorOf(b) == "struct" && b.K == "leaf" {
+				return "ptr-nil-" + b.Leaf
+			}
 			return "ptr-nil-" + ctorOf(stripPtr(s))
 		case n == 2 && lvl == 0:
 			return "ptrptr-outer-nil"
